@@ -14,7 +14,7 @@ class C12(FprCheck):
     props_modules = ["E3fpVerif.Props.C12"]
     rule = ("seeded conformers x option draws; one run to L = 14 queried at 0..L+3 and -1, against separate runs limited to "
             "each k and a run with level -1; multipliers from 0.3 (early stop) over 1.25-1.5 (bond lengths of one molecule separated) to 4 (everything in one shell); duplicate removal off in ~45% of cases. "
-            "Non-trivial: convergence level >= 2; distinct by (molecule, conformer, options).")
+            "Every level is also requested as a NumPy integer. Non-trivial: convergence level >= 2; distinct by (molecule, conformer, options).")
 
     L = 14
 
